@@ -45,6 +45,8 @@ var hdrVariants = map[string]string{
 	"h0": "",
 	"h1": "User-Agent: ua/1\r\nX-Bar: 1\r\nx-bar: two\r\nAccept: */*\r\n",
 	"h2": "Connection: X-Foo, keep-alive\r\nX-Foo: secret\r\nX-BAR: 3\r\nUser-Agent: ua/1\r\n",
+	// two Connection field lines: nominations of every line count
+	"h4": "Connection: X-Hop-A\r\nX-Hop-A: a\r\nconnection: x-hop-b, keep-alive\r\nX-Hop-B: b\r\nUser-Agent: ua/1\r\nX-Stay: s\r\n",
 	"h3": "Keep-Alive: timeout=5\r\nProxy-Connection: keep-alive\r\nProxy-Authorization: Basic enp6\r\nTE: trailers\r\nUpgrade: websocket\r\nUser-Agent: ua/1\r\nX-Keep: y\r\n",
 }
 
@@ -56,6 +58,7 @@ var respKinds = map[string]string{
 	"S301":     "HTTP/1.1 301 Moved Permanently\r\nLocation: http://b.test/\r\nContent-Length: 0\r\n\r\n",
 	"SCLOSE":   "HTTP/1.1 200 OK\r\nConnection: close\r\nContent-Length: 3\r\n\r\nbye",
 	"SHOP":     "HTTP/1.1 200 OK\r\nConnection: X-Hop\r\nX-Hop: h\r\nKeep-Alive: timeout=1\r\nContent-Length: 1\r\nX-End: e\r\n\r\nz",
+	"SHOP2":    "HTTP/1.1 200 OK\r\nConnection: X-Hop\r\nX-Hop: h\r\nConnection: X-Hop2\r\nX-Hop2: h2\r\nContent-Length: 1\r\nX-End: e\r\n\r\nz",
 	"EARLYEOF": "",
 }
 
@@ -432,12 +435,12 @@ func family(c *harness.Check) []string {
 	var out []string
 	add := func(s spec) { out = append(out, s.String()) }
 	reqs := []string{"GET", "POSTCL", "POSTCH", "GETCLOSE"}
-	hvs := []string{"h0", "h1", "h2", "h3"}
-	resps := []string{"S200CL", "S200CH", "S100", "S204", "S301", "SCLOSE", "SHOP", "EARLYEOF"}
+	hvs := []string{"h0", "h1", "h2", "h3", "h4"}
+	resps := []string{"S200CL", "S200CH", "S100", "S204", "S301", "SCLOSE", "SHOP", "SHOP2", "EARLYEOF"}
 	for _, r := range reqs {
 		for _, h := range hvs {
 			for _, s := range resps {
-				if !c.Thorough() && h != "h0" && h != "h3" && s != "S200CL" {
+				if !c.Thorough() && h != "h0" && h != "h3" && h != "h4" && s != "S200CL" {
 					continue
 				}
 				add(spec{"off", true, []exch{{r, h, s}}})
